@@ -10,7 +10,12 @@ Tie: (a) translator: every cfg!/#[cfg] site (gen/CfgSites.v) and every assignmen
 (b) impl == M for config_of_build: each binary reports its (debug_assertions, features), the model computes the fork
 vector, the measured collection count of a probe program must match `gc_always`;
 (c) the property itself, impl == S: cross-build differential.  The same programs (all repository scripts + generated
-programs) run in every binary; printed lines, outcome and messages (addresses masked) must be identical."""
+programs) run in every binary; printed lines, outcome and messages (addresses masked) must be identical.
+Round 9 (C10_r9.py): families compared BETWEEN BUILDS ONLY - try/finally x fiber switch x abrupt exits (inside open known
+classes of C08/C09: no single-build oracle), churn (scale family of the allocation accounting, closed-form results) and
+the size-independent accounting probe; (d) regenerated table of every debug-only construct (debug_assert!*,
+debug_assertions, overflow_checks) with its enclosing function (gen/FiberSites.v `debug_sites` = ConfigModel.debug_sites_ref):
+a new one breaks C10_debug_sites_known and aims the search at the function it sits in."""
 import hashlib
 import itertools
 import os
